@@ -42,7 +42,7 @@ func propC20(e *Env) {
 	N := 4 + e.Choose("gen", 28)
 	K := 1 + e.Choose("gen", 4) // reloads
 	os.WriteFile(filepath.Join(dir, prog), []byte(c20Source(0, 0)), 0o644)
-	r := newRtRig(e, dir)
+	r := newRtRig(e, dir, swarmRtOpts(e)...)
 	if !r.quiesce() {
 		return
 	}
